@@ -1,6 +1,25 @@
 package tor
 
-import "testing"
+import (
+	"bytes"
+	"context"
+	"fmt"
+	"math/rand/v2"
+	"net"
+	"net/netip"
+	"os"
+	"sync"
+	"testing"
+	"testing/synctest"
+	"time"
+
+	"github.com/jech/storrent/config"
+	"github.com/jech/storrent/hash"
+	"github.com/jech/storrent/peer"
+	"github.com/jech/storrent/protocol"
+	rc "github.com/jech/storrent/zzverif/refcodec"
+	"github.com/jech/storrent/zzverif/vh"
+)
 
 // C16: upload and choking discipline (monitor in world_test.go).
 
@@ -20,3 +39,157 @@ func c16Specs() []*bfsSpec {
 }
 
 func TestVerifC16(t *testing.T) { runSpecs(t, "C16", c16Specs()) }
+
+// TestVerifC16Big: one scenario on a torrent larger than 4 GiB (17 pieces of
+// 256 MiB, pieces 0 and 16 held): requests at offsets beyond 2^32 must be
+// answered with the bytes of *that* range.  The content is a cheap position
+// function instead of a stored array.
+func TestVerifC16Big(t *testing.T) {
+	if os.Getenv("VERIF_OUT") == "" {
+		t.Skip("verif harness: run through /verif/run")
+	}
+	res := vh.NewResult("C16")
+	defer func() {
+		os.Setenv("VERIF_SHARD", "90/100")
+		if err := res.Write(); err != nil {
+			t.Error(err)
+		}
+	}()
+	const PS = 1 << 28
+	const NP = 17
+	total := int64(NP)*PS - 12345
+	pat := func(o int64) byte { return byte((uint64(o)*0x9e3779b97f4a7c15)>>56) | 1 }
+	fill := func(start int64, n int) []byte {
+		b := make([]byte, n)
+		for i := range b {
+			b[i] = pat(start + int64(i))
+		}
+		return b
+	}
+	synctest.Test(t, func(t *testing.T) {
+		peer.VerifReset()
+		config.SetUploadRate(512 * 1024)
+		config.MemoryMark = 1 << 40
+		held := []uint32{0, 16}
+		pieces := make([]byte, 20*NP)
+		data := map[uint32][]byte{}
+		for _, i := range held {
+			l := int64(PS)
+			if int64(i+1)*PS > total {
+				l = total - int64(i)*PS
+			}
+			d := fill(int64(i)*PS, int(l))
+			data[i] = d
+			h := sha1Sum(d)
+			copy(pieces[20*i:], h[:])
+		}
+		d := &rc.Dict{}
+		d.Set("length", total)
+		d.Set("name", "big")
+		d.Set("piece length", int64(PS))
+		d.Set("pieces", pieces)
+		info := rc.Bencode(d)
+		tor, err := New("", sha1sum(info), "", info, 0, nil, nil)
+		if err == nil {
+			err = tor.MetadataComplete()
+		}
+		if err != nil {
+			panic(err)
+		}
+		tor.Log = discardLog
+		tor.Event = make(chan peer.TorEvent, 512)
+		tor.Done = make(chan struct{})
+		tor.Deleted = make(chan struct{})
+		tor.rand = rand.New(rand.NewPCG(1, 2))
+		for _, i := range held {
+			tor.Pieces.AddData(i, 0, data[i], ^uint32(0))
+			if done, _, err := tor.Pieces.Finalise(i, tor.PieceHashes[i]); !done {
+				panic(fmt.Sprint("finalise ", i, err))
+			}
+			delete(data, i)
+		}
+		ctx := context.Background()
+		a, b := net.Pipe()
+		p := peer.New("", a, netip.MustParseAddrPort("22.0.0.1:7000"), false, protocol.HandshakeResult{Hash: tor.Hash, Id: hash.Hash([]byte("-RM0001-big000000001")), Fast: true})
+		p.Log = discardLog
+		handleEvent(ctx, tor, peer.TorAddPeer{Peer: p})
+		var mu sync.Mutex
+		var buf bytes.Buffer
+		go func() {
+			tmp := make([]byte, 1<<16)
+			for {
+				n, err := b.Read(tmp)
+				mu.Lock()
+				buf.Write(tmp[:n])
+				mu.Unlock()
+				if err != nil {
+					return
+				}
+			}
+		}()
+		drain := func() {
+			for {
+				synctest.Wait()
+				select {
+				case e := <-tor.Event:
+					handleEvent(ctx, tor, e)
+				default:
+					return
+				}
+			}
+		}
+		send := func(m rc.Msg) {
+			go b.Write(rc.Encode(m, rc.EncodeOpts{}))
+			drain()
+		}
+		send(rc.Msg{Kind: rc.Interested})
+		writePeer(p, peer.PeerUnchoke{Unchoke: true})
+		drain()
+		type rq struct{ i, b, l uint32 }
+		reqs := []rq{{16, 0, 16384}, {16, 1 << 27, 16384}, {0, 16384, 16384}, {16, uint32(total-16*PS) - 16384, 16384}, {0, PS - 16384, 16384}, {15, 0, 16384}}
+		for _, r := range reqs {
+			send(rc.Msg{Kind: rc.Request, Index: r.i, Begin: r.b, Length: r.l})
+		}
+		for k := 0; k < 40; k++ {
+			time.Sleep(300 * time.Millisecond)
+			drain()
+		}
+		mu.Lock()
+		frames, _ := rc.Split(buf.Bytes())
+		mu.Unlock()
+		served := 0
+		for _, f := range frames {
+			m, err := rc.Decode(f, rc.ExtIDs{})
+			if err != nil || m.Kind != rc.Piece {
+				continue
+			}
+			served++
+			res.Add("transitions", 1)
+			off := int64(m.Index)*PS + int64(m.Begin)
+			want := fill(off, len(m.Data))
+			found := false
+			for _, r := range reqs {
+				if r.i == m.Index && r.b == m.Begin && int(r.l) == len(m.Data) {
+					found = true
+				}
+			}
+			if !found {
+				res.Violate("C16/piece-unrequested", fmt.Sprintf("Piece %d/%d/%d matches no request (torrent of %d bytes)", m.Index, m.Begin, len(m.Data), total), nil)
+			}
+			if !bytes.Equal(m.Data, want) {
+				res.Violate("C16/piece-wrong-bytes/beyond-4GiB", fmt.Sprintf("the Piece sent for piece %d offset %d (torrent offset %d, beyond 2^32: %v) does not carry the content of that range", m.Index, m.Begin, off, off >= 1<<32), nil)
+			}
+		}
+		if served < 5 {
+			res.Violate("C16/held-block-not-served/beyond-4GiB", fmt.Sprintf("only %d of 5 requests for blocks of held pieces were answered on a torrent of %d bytes", served, total), nil)
+		}
+		res.Add("states", 1)
+		res.Add("traces_validated_against_impl", 1)
+		b.Close()
+		drain()
+		time.Sleep(3 * time.Second)
+		drain()
+		tor.Pieces.Del()
+	})
+	res.Sample(map[string]any{"torrent": "17 pieces of 256 MiB", "request": "piece 16, offset 2^27, 16384 bytes"})
+}
